@@ -3,3 +3,16 @@ package e2e
 import "golang.org/x/net/idna"
 
 func idnaASCII(d string) (string, error) { return idna.ToASCII(d) }
+
+func cleanDomain(a string) string {
+	for i := len(a) - 1; i >= 0; i-- {
+		if a[i] == '@' {
+			u, err := idna.ToUnicode(a[i+1:])
+			if err != nil {
+				return a
+			}
+			return a[:i+1] + u
+		}
+	}
+	return a
+}
